@@ -207,6 +207,12 @@ func Generate(r *rand.Rand, sz Size) *Model {
 		var vals []string
 		for k := 0; k < n; k++ {
 			v := fmt.Sprintf("%s%d", wordList[r.Intn(len(wordList))], k)
+			switch r.Intn(6) {
+			case 0:
+				v = fmt.Sprintf("%s.%d", wordList[r.Intn(len(wordList))], k) // a string with a dot is still a string
+			case 1:
+				v = fmt.Sprintf("./%s%d", wordList[r.Intn(len(wordList))], k)
+			}
 			note := ""
 			if r.Intn(4) == 0 {
 				note = "value " + fmt.Sprint(k)
@@ -224,7 +230,7 @@ func Generate(r *rand.Rand, sz Size) *Model {
 	var typeItems []Item
 	for i := 0; i < nTypes; i++ {
 		t := &Type{Name: fmt.Sprintf("@ty%d", i), Annotation: annotation(r)}
-		switch k := r.Intn(10); {
+		switch k := r.Intn(11); {
 		case k == 0:
 			t.Notation, t.Regex = "regex", []string{"ab+c", "[a-z]{3}-[0-9]{2}", "x(y|z)w", "ID[0-9]+"}[r.Intn(4)]
 			g.refTypes = append(g.refTypes, t.Name)
@@ -236,6 +242,11 @@ func Generate(r *rand.Rand, sz Size) *Model {
 			t.Notation = "jsight"
 			t.Schema = &S{K: "int", Lit: fmt.Sprint(10 + r.Intn(80)), Rules: []Rule{{Name: "min", Val: fmt.Sprint(r.Intn(10))}}}
 			g.scalarTyp = append(g.scalarTyp, t.Name)
+			g.refTypes = append(g.refTypes, t.Name)
+		case k == 5: // string scalar type usable as a shortcut property key; its example is unlike every generated key
+			t.Notation = "jsight"
+			t.Schema = &S{K: "str", Lit: fmt.Sprintf("sk%d", i)}
+			g.strTypes = append(g.strTypes, t.Name)
 			g.refTypes = append(g.refTypes, t.Name)
 		case k == 4: // object with scalar properties only, usable in allOf
 			t.Notation = "jsight"
@@ -254,7 +265,7 @@ func Generate(r *rand.Rand, sz Size) *Model {
 				if v == nil {
 					v = &S{K: "str", Lit: g.word(), Note: g.note()}
 				}
-				s.Props = append(s.Props, Prop{fmt.Sprintf("b%d", q), v})
+				s.Props = append(s.Props, Prop{Key: fmt.Sprintf("b%d", q), V: v})
 			}
 			t.Schema = s
 			g.objTypes = append(g.objTypes, t.Name)
@@ -324,7 +335,7 @@ func Generate(r *rand.Rand, sz Size) *Model {
 				} else {
 					v = &S{K: "str", Lit: g.word(), Note: g.note()}
 				}
-				pg.PathDefs = append(pg.PathDefs, Prop{strings.Trim(p, "{}"), v})
+				pg.PathDefs = append(pg.PathDefs, Prop{Key: strings.Trim(p, "{}"), V: v})
 			}
 		}
 		pickTags := func() []string {
@@ -400,7 +411,7 @@ func Generate(r *rand.Rand, sz Size) *Model {
 					me.OperationID = fmt.Sprintf("op%d", opID)
 				}
 				if r.Intn(4) == 0 {
-					me.Query = &Query{Example: "a=1&b=two", Format: []string{"", "htmlFormEncoded", "noFormat"}[r.Intn(3)], Schema: &S{K: "obj", Props: []Prop{{"a", &S{K: "int", Lit: "1"}}, {"b", &S{K: "str", Lit: "two", Note: g.note()}}}}}
+					me.Query = &Query{Example: "a=1&b=two", Format: []string{"", "htmlFormEncoded", "noFormat"}[r.Intn(3)], Schema: &S{K: "obj", Props: []Prop{{Key: "a", V: &S{K: "int", Lit: "1"}}, {Key: "b", V: &S{K: "str", Lit: "two", Note: g.note()}}}}}
 					if r.Intn(3) == 0 {
 						me.Query.Example = ""
 					}
@@ -408,7 +419,7 @@ func Generate(r *rand.Rand, sz Size) *Model {
 				if me.Verb != "GET" && r.Intn(3) == 0 {
 					rq := &Request{Body: body(true), BodyAsDirective: r.Intn(2) == 0}
 					if r.Intn(3) == 0 {
-						rq.Headers = &S{K: "obj", Props: []Prop{{"X-Req", &S{K: "str", Lit: g.word()}}}}
+						rq.Headers = &S{K: "obj", Props: []Prop{{Key: "X-Req", V: &S{K: "str", Lit: g.word()}}}}
 						rq.BodyAsDirective = true
 					}
 					me.Request = rq
@@ -416,7 +427,7 @@ func Generate(r *rand.Rand, sz Size) *Model {
 				for k := 0; k < 1+r.Intn(sz.Responses); k++ {
 					rs := Response{Code: []string{"200", "201", "204", "400", "404", "500", "200"}[r.Intn(7)], Annotation: annotation(r), Body: body(true), BodyAsDirective: r.Intn(3) == 0}
 					if r.Intn(5) == 0 {
-						rs.Headers = &S{K: "obj", Props: []Prop{{"X-Res", &S{K: "str", Lit: g.word(), Note: g.note()}}}}
+						rs.Headers = &S{K: "obj", Props: []Prop{{Key: "X-Res", V: &S{K: "str", Lit: g.word(), Note: g.note()}}}}
 						rs.BodyAsDirective = true
 					}
 					me.Responses = append(me.Responses, rs)
@@ -431,4 +442,45 @@ func Generate(r *rand.Rand, sz Size) *Model {
 	r.Shuffle(len(rest), func(a, b int) { rest[a], rest[b] = rest[b], rest[a] })
 	m.Items = append(items, rest...)
 	return m
+}
+
+// Features counts the schema features used anywhere in the model.
+func (m *Model) Features() map[string]int {
+	out := map[string]int{}
+	body := func(b Body) {
+		if b.Kind == "schema" {
+			b.Schema.Features(out)
+		} else {
+			out["body:"+b.Kind]++
+		}
+	}
+	for _, it := range m.Items {
+		switch it.Kind {
+		case "type":
+			out["type-notation:"+it.Type.Notation]++
+			it.Type.Schema.Features(out)
+		case "group":
+			for _, p := range it.Group.PathDefs {
+				p.V.Features(out)
+			}
+			for _, me := range it.Group.Methods {
+				if me.Query != nil {
+					me.Query.Schema.Features(out)
+				}
+				if me.Request != nil {
+					me.Request.Headers.Features(out)
+					body(me.Request.Body)
+				}
+				for _, rs := range me.Responses {
+					rs.Headers.Features(out)
+					body(rs.Body)
+				}
+			}
+			for _, rm := range it.Group.RPC {
+				rm.Params.Features(out)
+				rm.Result.Features(out)
+			}
+		}
+	}
+	return out
 }
